@@ -1,4 +1,15 @@
 #include <yaclib/fault/detail/fiber/mutex.hpp>
+#ifdef YACLIB_VERIF
+#  include <yaclib/fault/verif_hook.hpp>
+#  define YACLIB_VERIF_MUTEX(ev)                                                                                        \
+    do {                                                                                                               \
+      if (::yaclib::verif::gHooks != nullptr && ::yaclib::verif::gHooks->on_mutex != nullptr) {                         \
+        ::yaclib::verif::gHooks->on_mutex(this, (ev));                                                                  \
+      }                                                                                                                \
+    } while (false)
+#else
+#  define YACLIB_VERIF_MUTEX(ev) ((void)0)
+#endif
 
 namespace yaclib::detail::fiber {
 
@@ -7,6 +18,7 @@ void Mutex::lock() {
     _queue.Wait(NoTimeoutTag{});
   }
   _occupied = true;
+  YACLIB_VERIF_MUTEX(::yaclib::verif::kAcquire);
 }
 
 bool Mutex::try_lock() noexcept {
@@ -14,10 +26,12 @@ bool Mutex::try_lock() noexcept {
     return false;
   }
   _occupied = true;
+  YACLIB_VERIF_MUTEX(::yaclib::verif::kAcquire);
   return true;
 }
 
 void Mutex::unlock() noexcept {
+  YACLIB_VERIF_MUTEX(::yaclib::verif::kRelease);
   _occupied = false;
   _queue.NotifyOne();
 }
